@@ -59,6 +59,9 @@ class GI(N):
     lst: list[N] = field(default_factory=list)
     child: N | None = None
 
+    def __bool__(self) -> bool:  # falsy in a boolean context although it holds children
+        return False
+
 
 @dataclass
 class GR(N):
